@@ -44,6 +44,9 @@ def gen_query(rnd, tname):
                      ["cmp", "ge", col("a"), ["func", "", "getvar", [["str", "min"]]]]])
     if rnd.random() < 0.15:
         sel = sel + [item(["func", "", "constant", [["str", "tag"]]], "tg")] if sel != [["star"]] else sel
+    if rnd.random() < 0.1 and sel != [["star"]]:
+        # a qualified call: out of model, compared by the metamorphic runs (every inner array resolves its own slots)
+        sel = sel + [item(["func", "async", "vf_id", [col("a")]], "av")]
     return select(sel, table(tname), wh=wh, distinct=rnd.random() < 0.1)
 
 
@@ -115,6 +118,9 @@ def metamorphic(chk, results):
     for c, g, start, n in meta:
         inner = outs[start:start + n]
         mix = outs[start + n]
+        if g.get("nonPlain") or any(o.get("nonPlain") for o in inner) or mix.get("nonPlain"):
+            chk.add_violation("nested-unresolved-slot", {"sql": c["sql"], "doc": c["doc"], "nested": g, "inner": inner, "mix": mix})
+            return
         if any(o.get("r") != "ok" for o in inner) or mix.get("r") != "ok":
             chk.add_violation("metamorphic-error", {"sql": c["sql"], "doc": c["doc"], "inner": inner, "mix": mix})
             return
